@@ -135,6 +135,12 @@ namespace randomx {
 
 	template<class Allocator, bool softAes>
 	void VmBase<Allocator, softAes>::generateProgram(void* seed) {
+#ifdef RANDOMX_VERIF
+		if (const void* verifProgram = randomx_verif::hooks().programOverride) {
+			memcpy(&program, verifProgram, sizeof(program));
+			return;
+		}
+#endif
 		fillAes4Rx4<softAes>(seed, sizeof(program), &program);
 	}
 
